@@ -97,11 +97,14 @@ func init() {
 			var outs []string
 			for _, qs := range f[2:] {
 				t := strings.Split(qs, ";")
-				if len(t) != 4 {
+				if len(t) != 4 && len(t) != 5 {
 					continue
 				}
 				src.cur.byAddr, src.cur.byMAC = verifList(t[2]), verifList(t[3])
 				q := query.Query{PeerIP: net.ParseIP(t[0]), LocalIP: net.IP{127, 0, 0, 1}}
+				if len(t) == 5 {
+					q.LocalIP = net.ParseIP(t[4]) // the local address the query arrived at
+				}
 				if t[1] != "-" {
 					q.MAC = net.HardwareAddr(verifUnhex(t[1]))
 				}
